@@ -250,6 +250,8 @@ fn sample_and_expire_batch(store: &Arc<FeoxStore>, config: &TtlConfig) -> (u64, 
 
     let candidates = sample_ttl_entries(hash_table, config.sample_size, &mut rng);
     let sampled = candidates.len() as u64;
+    #[cfg(feoxdb_verif)]
+    crate::verif::sched::point_key("c11_sweep_sampled", &[]);
 
     for (key, record) in candidates {
         let ttl_expiry = record.ttl_expiry.load(Ordering::Relaxed);
@@ -257,6 +259,8 @@ fn sample_and_expire_batch(store: &Arc<FeoxStore>, config: &TtlConfig) -> (u64, 
         if ttl_expiry > 0 && ttl_expiry < now {
             #[cfg(test)]
             crate::test_hooks::pause_at(crate::test_hooks::TTL_AFTER_EXPIRED_SAMPLE);
+            #[cfg(feoxdb_verif)]
+            crate::verif::sched::point_key("c11_sweep_after_sample", &key);
 
             let old_value_len = record.value_len;
             let record_size = record.calculate_size();
